@@ -6,6 +6,7 @@ import TddaVerif.Model.Constraints
 import TddaVerif.Props.C02Spec
 import TddaVerif.Lemmas.Detect
 
+import TddaVerif.Lemmas.DetectOut
 namespace TddaVerif.Props.C06
 open TddaVerif.Constraints TddaVerif.Props.C02
 
@@ -73,5 +74,29 @@ theorem counts_partition (cols : List (List (Option Bool))) (n : Nat) :
 example : detectFlags { epsilon := 0, strict := false, rx := fun _ _ => false }
     { name := ['a'], ftype := .int, cells := [some (.i 3), none, some (.i 9)] } (.max (some (.i 5)) .closed)
     = some [some true, none, some false] := by decide +kernel
+
+/-! ### the file of detected records (Model/DetectOut.lean) -/
+open TddaVerif.DetectOut in
+/-- every row written carries, as its row number, the position (from 1) of its record in the input, and that record's count -/
+theorem written_rows_are_positions (nf : List Nat) (wa : Bool) (r v : Nat) (h : (r, v) ∈ written nf wa) :
+    1 ≤ r ∧ r ≤ nf.length ∧ nf[r - 1]? = some v := DetectOut.Lemmas.written_rows_are_positions nf wa r v h
+
+open TddaVerif.DetectOut in
+/-- without write_all only failing records are written -/
+theorem written_failing (nf : List Nat) (r v : Nat) (h : (r, v) ∈ written nf false) : v > 0 :=
+  DetectOut.Lemmas.written_failing nf r v h
+
+open TddaVerif.DetectOut in
+/-- and every failing record (every record with write_all) is written, under its own position -/
+theorem failing_written (nf : List Nat) (wa : Bool) (i v : Nat) (hv : nf[i]? = some v) (h : wa = true ∨ v > 0) :
+    (i + 1, v) ∈ written nf wa := DetectOut.Lemmas.failing_written nf wa i v hv h
+
+open TddaVerif.DetectOut in
+/-- in the order of the input, no record twice -/
+theorem written_sorted (nf : List Nat) (wa : Bool) : (written nf wa).Pairwise (fun a b => a.1 < b.1) :=
+  DetectOut.Lemmas.written_sorted nf wa
+
+open TddaVerif.DetectOut in
+example : written [0, 2, 0, 1] false = [(2, 2), (4, 1)] := by decide
 
 end TddaVerif.Props.C06
